@@ -130,6 +130,38 @@ def d2(ctx, F):
         ctx.check(inj, "C14.D2.deflate-table", "deflate-table:not-injective", "different DeflateLibrary variants select different formats")
 
 
+WHOLE = {"deref", "deref_mut", "into", "from", "as_ref", "as_mut", "borrow", "borrow_mut", "clone", "to_vec", "to_owned", "freeze", "as_slice",
+         "as_mut_slice", "into_vec", "copy_from_slice", "to_bytes", "into_bytes", "as_bytes", "into_boxed_slice", "as_str", "into_string", "to_string"}
+
+
+def narrowing_calls(b, operand):
+    """backward slice from `operand`: the calls its value passes through that are not whole-value conversions (anything that can yield
+    a sub-range, a trimmed or a re-interpreted view of the bytes: strip_prefix, trim, get, split_at, Index<Range>, ...)"""
+    seen, todo, out = set(), [op_local(operand)], []
+    defs = {}
+    for i, j, pl, rv, s in b.assigns():
+        defs.setdefault(pl["l"], []).append(("rv", rv))
+    for c in b.calls():
+        if c.dest is not None:
+            defs.setdefault(c.dest["l"], []).append(("call", c))
+    while todo:
+        l = todo.pop()
+        if l is None or l in seen:
+            continue
+        seen.add(l)
+        for kind, d in defs.get(l, []):
+            if kind == "rv":
+                todo.extend(rv_locals(d))
+            else:
+                n = d.name()
+                whole = n in WHOLE or (n in ("index", "index_mut") and "RangeFull" in " ".join(d.arg_tys)) or \
+                    (n == "split" and strip_generics(d.callee) == "bytes::bytes_mut::BytesMut::split") or (n == "take" and strip_generics(d.callee) == "core::mem::take")
+                if not whole:
+                    out.append(d)
+                todo.extend(op_local(a) for a in d.args)
+    return out
+
+
 def d3(ctx, F):
     bad = ("alloc::string::String::from_utf8_lossy", "alloc::string::String::from_utf8_unchecked", "core::str::converts::from_utf8_unchecked",
            "core::str::<impl str>::from_utf8_unchecked", "alloc::string::String::from_utf8_lossy_owned")
@@ -169,7 +201,9 @@ def d3(ctx, F):
                 ctx.check(okp, "C14.D3.string-checked", "string-decode:error-swallowed", "an invalid-UTF-8 error is propagated, never turned into a value", fu[0].span)
                 # whole buffer
                 idx = [c for c in b.calls() if strip_generics(c.callee) == "core::ops::index::Index::index"]
-                ctx.check(all("RangeFull" in " ".join(c.arg_tys) for c in idx), "C14.D3.whole-buffer", "string-decode:partial", "StringCodec::decode converts the whole buffer", b.span)
+                nar = narrowing_calls(F.inlined(b), F.inlined(b).calls_to("alloc::string::String::from_utf8")[0].args[0]) if len(F.inlined(b).calls_to("alloc::string::String::from_utf8")) == 1 else []
+                ctx.check(all("RangeFull" in " ".join(c.arg_tys) for c in idx) and not nar, "C14.D3.whole-buffer", "string-decode:partial",
+                          "StringCodec::decode converts the whole buffer (%s)" % (", ".join(sorted({strip_generics(c.callee) for c in nar})) or "whole-value conversions only"), (nar or [b])[0].span)
         if "BytesCodec" in im["self"]:
             idx = [c for c in b.calls() if strip_generics(c.callee) == "core::ops::index::Index::index" and "RangeFull" not in " ".join(c.arg_tys)]
             cp = [c for c in b.calls() if c.name() in ("to_vec", "into", "to_owned", "copy_from_slice", "extend_from_slice", "from")]
